@@ -180,7 +180,7 @@ def space(tier):
     for tname in ("vec4", "vecN", "tile2"):
         for d in (1, 2, 3):
             bm = BOUNDS_MENU if d <= 2 or th else [1, 2, 4, 5, 8]
-            parts.append(Tagged("sched", Product([tname], [(1,)], [d], power(ent, d), power(bm, d), ["none"])))
+            parts.append(Tagged("sched", Product([tname], [(1,)], [d], power(ent if d == 3 else [-1] + ent, d), power(bm, d), ["none"])))
     # (b) two / three operands, one row each, d <= 2
     for tname, k in (("vec4x2", 2), ("vec4x3", 3)):
         for d in (1, 2):
